@@ -219,6 +219,21 @@ def run_case(case, ctx):
             net.export("exported", solver="cvode", method="dense", device="cpu", prefix=str(work), overwrite=True)
             obs["second_exports_checked"] += 1
             after = {f.name: f.read_bytes() for f in sorted(exp_dir.glob("*.naunet"))}
+            # ... and an export after an edit replaces the project's network file with the edited network
+            if net.reaction_list and nf:
+                net.reaction_list[0].alpha = 4.321e-7
+                net.export("exported", solver="cvode", method="dense", device="cpu", prefix=str(work), overwrite=True)
+                obs["exports_after_edit_checked"] += 1
+                first = next((ln for ln in nf[0].read_text().splitlines() if ln.strip()), "")
+                try:
+                    a_written = float(first.split(",")[9])
+                except Exception:
+                    a_written = None
+                if a_written != 4.321e-7:
+                    viol.append(violation("export_after_edit_stale", f"{case['src']}: after editing alpha of the first reaction to 4.321e-07 and exporting again "
+                                          f"(overwrite=True) the project's network file still starts with `{first[:120]}`"))
+                net.reaction_list[0].alpha = float(orig[0][7])
+                net.export("exported", solver="cvode", method="dense", device="cpu", prefix=str(work), overwrite=True)
             if after != before:
                 viol.append(violation("second_export_differs", f"{case['src']}: exporting twice into one project changes its network file(s): "
                                       f"{[(k, len(before.get(k, b'').splitlines()), len(v.splitlines())) for k, v in after.items() if before.get(k) != v][:3]}"))
